@@ -66,6 +66,10 @@ class Interop(core.Scenario):
         else:
             w.run()
         self.sid = w.cw.client.sid
+        if p.get('connect_again'):
+            # the application calls connect() on the connected client (a retry timer): refused, the conversation goes on
+            self.again = w.cw.call('connect', 'http://h', transports=p['transports'])
+            w.run()
         if p.get('fault') is not None and w.sw.wss:
             # one write of the server on the WebSocket fails (connection reset), k frames from now
             h = w.sw.wss[-1]
@@ -258,6 +262,8 @@ def param_list(ctx, pairs):
                 if hb == [1.0, 1.0]:
                     # differently configured servers existed in the process before this one
                     ps.append(dict(base_p, c2s=2, s2c=2, neighbour=True))
+                if hb == [1.0, 1.0]:
+                    ps.append(dict(base_p, c2s=2, s2c=2, idle=2, connect_again=True, disconnect='client'))
                 if hb == [1.0, 1.0]:
                     # the server's connect handler greets the session before it is established
                     ps.append(dict(base_p, c2s=1, s2c=2, greet=True))
